@@ -32,6 +32,13 @@ Proof.
   intros gm st x H. unfold buffer_mm, buffer. rewrite add_mm_off by exact H. destruct x; reflexivity.
 Qed.
 Print Assumptions C04_other_mm.
+(* ... and the same through the DIRECT interface of a block (add_address_event_count(const AddressEventCount&),
+   add_malformed_message(const MalformedMessage&)): with the bit cleared the call changes nothing and reports "not full" *)
+Theorem C04_other_direct : forall item st b,
+  (N.testbit (h_other (b_bp b)) 1 = false -> add_aec_item item st b = (b, false)) /\
+  (N.testbit (h_other (b_bp b)) 0 = false -> add_mm_item item st b = (b, false)).
+Proof. intros item st b. split; intros H; [unfold add_aec_item|unfold add_mm_item]; rewrite H; reflexivity. Qed.
+Print Assumptions C04_other_direct.
 
 (* the preamble written to the file states the parameter sets of the exporter, member for member *)
 Theorem C04_preamble : forall x, exists rest, header_ops x = OArr 3 :: OText cdns_text :: write_val FilePreamble (preamble_val x) ++ rest.
